@@ -185,6 +185,18 @@ ToBooleanG(g) == IF g.k \in IntKinds THEN ~IsZero(g.z) ELSE ToBoolean(ToJS(g))
 (* given by value; NaN and the infinities have no JSON text (error).  Go's   *)
 (* encoding/json contract for the containers: nil slice/map -> null, struct  *)
 (* fields by json tag, unexported and "-" fields omitted.                    *)
+(* A JSON number text is read back by its exact decimal value.  For a double *)
+(* the text must be one that denotes it (rounds to it); the canonical text   *)
+(* is the shortest such digit string of 9.8.1 / 15.12.3 (the same digits     *)
+(* Go's encoding/json prints), which for an integer-valued double between    *)
+(* 2^53 and 10^21 is the digits followed by zeros, an exact integer that may *)
+(* differ from the double.                                                   *)
+JsonNumF(x) ==
+    IF ~(x.c = "big" /\ x.e >= 0) \/ IsSafeInt(x) THEN x
+    ELSE LET a == IF x.neg THEN NumNeg(x) ELSE x
+         IN  IF NumCmp(a, DecToNum(FALSE, <<1>>, 21)) >= 0 THEN x
+             ELSE LET sd == ShortestDigits(a)
+                  IN  ZOfBn(x.neg, BnMul(BnOfDigits(sd.digits), BnPow10(sd.n - sd.k)))
 JNull == [j |-> "null"]
 JErr == [j |-> "error"]
 RECURSIVE GoJSON(_)
@@ -193,7 +205,7 @@ GoJSON(g) ==
     CASE g.k \in {"nil", "ptrnil"} -> JNull
       [] g.k = "bool" -> [j |-> "bool", b |-> g.b]
       [] g.k \in IntKinds -> [j |-> "num", n |-> g.z]
-      [] g.k \in FltKinds -> IF IsFinite(g.n) THEN [j |-> "num", n |-> g.n] ELSE JErr
+      [] g.k \in FltKinds -> IF IsFinite(g.n) THEN [j |-> "num", n |-> JsonNumF(g.n)] ELSE JErr
       [] g.k = "string" -> [j |-> "str", s |-> g.s]
       [] g.k = "slice" ->
             IF g.isnil THEN JNull
@@ -248,7 +260,13 @@ ExportX(v) ==
             LET idx == SelectSeq([i \in 1..Len(v.keys) |-> i], LAMBDA i : v.vals[i].t # "undef")
             IN  [x |-> "obj", keys |-> [i \in 1..Len(idx) |-> v.keys[idx[i]]],
                               vals |-> [i \in 1..Len(idx) |-> ExportX(v.vals[idx[i]])]]
-      [] v.t \in {"fn", "cobj"} -> [x |-> "obj", keys |-> <<>>, vals |-> <<>>]
+      [] v.t = "fn" -> [x |-> "obj", keys |-> <<>>, vals |-> <<>>]
+      [] v.t = "cobj" ->        \* the scripted object of the harness: its own valueOf/toString members (functions export as empty maps)
+            LET mem(b) == IF b.k = "inherit" THEN <<>>
+                          ELSE IF b.k = "noncallable" THEN <<[x |-> "num", n |-> I(1)]>>
+                          ELSE <<[x |-> "obj", keys |-> <<>>, vals |-> <<>>]>>
+            IN  [x |-> "obj", keys |-> (IF v.ts.k = "inherit" THEN <<>> ELSE <<S_toString>>) \o (IF v.vo.k = "inherit" THEN <<>> ELSE <<S_valueOf>>),
+                              vals |-> mem(v.ts) \o mem(v.vo)]
 
 (* The Go type otto gives an exported value (only used to say when the known *)
 (* deviation D15_export_common_type_panics strikes): number literals that    *)
@@ -311,35 +329,51 @@ CallObs(th, args) == [th |-> ThisBinding(th), a |-> [i \in 1..Len(args) |-> ToJS
 (* convertNumeric).  Parameter types ("ty"):                                 *)
 (*   [k |-> <numeric kind>|"string"|"bool"|"iface"|"struct"|"ptr"],          *)
 (*   [k |-> "slice", e |-> ty], [k |-> "map", e |-> ty]                      *)
-(* Result [thr |-> "", g |-> G] or [thr |-> "TypeError"|"RangeError"].       *)
+(* Result [thr |-> "", g |-> G] or [thr |-> "TypeError"|"RangeError"], or    *)
+(* [thr |-> "gopanic"] / [thr |-> "value"] in deviation branches only.       *)
+(* What arrives is described type-directed: numbers/strings/bools as in G,   *)
+(*   interface{}   [k |-> "x", x |-> exported structure]                     *)
+(*   slices        [k |-> "slice", items], maps [k |-> "map", keys, vals]    *)
+(*   T             [k |-> "struct", A, B, c, F, Any, Hid]                    *)
+(*   pointer to T  [k |-> "ptrnil"] or [k |-> "ptr", to |-> struct]          *)
 (* The rule of the property statement: the argument arrives as exactly the   *)
 (* Go value it denotes or the call fails loudly; a number must be exactly    *)
-(* representable in the target kind (never truncated, wrapped or rounded).   *)
+(* representable in the target kind (never truncated, wrapped or rounded);   *)
+(* containers are built element-wise with the same rule.  A string parameter *)
+(* receives String(value) (9.8), a bool parameter Boolean(value) (9.2), an   *)
+(* interface{} parameter the exported value; numeric parameters accept       *)
+(* Numbers only (no implicit ToNumber: TypeError).                           *)
 POK(g) == [thr |-> "", g |-> g]
 PErr(cls) == [thr |-> cls]
+TK(k) == [k |-> k]
+TSl(e) == [k |-> "slice", e |-> e]
+TMp(e) == [k |-> "map", e |-> e]
+GX(x) == [k |-> "x", x |-> x]
 
 (* %v of a float64 as Go's fmt prints it (the deviation of the string        *)
-(* parameter): shortest digits, %e form when the exponent is < -4 or >= 21,  *)
+(* parameter): shortest digits, %e form when the exponent is < -4 or >= 6,   *)
 (* exponent of at least two digits, "+Inf", "-Inf", "NaN", "-0"              *)
+RECURSIVE StripTrailingZeros(_)
+StripTrailingZeros(d) == IF Len(d) > 1 /\ d[Len(d)] = 48 THEN StripTrailingZeros(SubSeq(d, 1, Len(d) - 1)) ELSE d
 GoFmtV(x) ==
     CASE x.c = "nan" -> S_NaN
       [] x.c = "inf" -> (IF x.neg THEN <<45, 73, 110, 102>> ELSE <<43, 73, 110, 102>>)
       [] x.c = "nzero" -> <<45, 48>>
-      [] IsZero(x) -> <<48>>
       [] OTHER ->
             LET a  == IF IsNeg(x) THEN NumNeg(x) ELSE x
-                sd == ShortestDigits(a)
+                sd == IF IsSafeInt(a) THEN (LET ds == IntNumToStr(a) IN [digits |-> StripTrailingZeros(ds), n |-> Len(ds)])
+                      ELSE ShortestDigits(a)
                 d  == sd.digits
                 ex == sd.n - 1
                 sg == IF IsNeg(x) THEN <<45>> ELSE <<>>
-            IN  IF ex < -4 \/ ex >= 21
+            IN  IF ex < -4 \/ ex >= 6                      \* strconv 'g' with the shortest precision: %e from 1e+06 on
                 THEN LET ae == IF ex < 0 THEN -ex ELSE ex
                          es == (IF ex < 0 THEN <<45>> ELSE <<43>>) \o (IF ae < 10 THEN <<48>> ELSE <<>>) \o DigitsNat(ae)
                      IN  sg \o (IF Len(d) = 1 THEN d ELSE <<d[1], 46>> \o SubSeq(d, 2, Len(d))) \o <<101>> \o es
                 ELSE sg \o Layout(d, sd.n)
 
 (* does otto hold this Number as a Go int64 (integer literal) or a float64?  *)
-(* only the deviating string conversion depends on it                        *)
+(* only deviating branches depend on it                                      *)
 HeldAsInt(n) == NumLeafTy(n).k = "int64"
 
 NumToKind(x, k) ==        \* a Number to a numeric parameter
@@ -359,48 +393,374 @@ NumToKind(x, k) ==        \* a Number to a numeric parameter
                   ELSE IF NumCmp(z, MaxI64) > 0 THEN PErr("RangeError")
                   ELSE POK(GInt(k, z))
 
+(* 15.4.4.2/15.4.4.5 Array.prototype.toString = join(",") on arrays of primitives *)
+RECURSIVE JoinPrims(_, _)
+JoinPrims(items, i) ==
+    IF i > Len(items) THEN <<>>
+    ELSE (IF i > 1 THEN <<44>> ELSE <<>>)
+         \o (IF items[i].t \in {"undef", "null", "hole"} THEN <<>> ELSE ToStringPrim(items[i]))
+         \o JoinPrims(items, i + 1)
+
 StringOfPrim(v) ==        \* 9.8 ToString; the deviation prints float64-held numbers with Go's %v
     IF v.t = "num" /\ D("D16_string_parameter_number_go_format") /\ ~HeldAsInt(v.n)
     THEN GoFmtV(v.n) ELSE ToStringPrim(v)
 
+StructFieldOf(name) ==    \* fieldIndexByName: json tag or Go name of an exported field; "-" tags and unexported fields are not reachable
+    CASE name = S_A -> "A" [] name \in {S_B, S_bee} -> "B" [] name = S_F -> "F" [] name = S_Any -> "Any" [] OTHER -> "none"
+FieldTy(f) == CASE f = "A" -> TK("int") [] f = "B" -> TK("string") [] f = "F" -> TK("float64") [] f = "Any" -> TK("iface")
+ZeroStruct == [k |-> "struct", A |-> I(0), B |-> <<>>, c |-> I(0), F |-> I(0), Any |-> GX(XNil), Hid |-> I(0)]
+SetField(st, f, g) ==
+    CASE f = "A" -> [st EXCEPT !.A = g.z] [] f = "B" -> [st EXCEPT !.B = g.s]
+      [] f = "F" -> [st EXCEPT !.F = g.n] [] f = "Any" -> [st EXCEPT !.Any = g]
+
+RECURSIVE ZeroG(_)
+ZeroG(ty) == CASE ty.k \in IntKinds -> GInt(ty.k, I(0))
+               [] ty.k \in FltKinds -> GFlt(ty.k, I(0))
+               [] ty.k = "string" -> GStr(<<>>)
+               [] ty.k = "bool" -> GBool(FALSE)
+               [] ty.k = "iface" -> GX(XNil)
+               [] ty.k = "slice" -> [k |-> "slice", items |-> <<>>]
+               [] ty.k = "map" -> [k |-> "map", keys |-> <<>>, vals |-> <<>>]
+               [] ty.k = "struct" -> ZeroStruct
+               [] ty.k = "ptr" -> GPtrNil
+FirstBad(rs) == SelectSeq([i \in 1..Len(rs) |-> i], LAMBDA i : rs[i].thr # "")
+
 RECURSIVE ConvertParam(_, _)
-ConvertSeq(items, ty) ==  \* element-wise; the first failure wins
-    LET rs == [i \in 1..Len(items) |-> ConvertParam(items[i], ty)]
-        bad == SelectSeq([i \in 1..Len(rs) |-> i], LAMBDA i : rs[i].thr # "")
-    IN  IF bad # <<>> THEN PErr(rs[bad[1]].thr)
-        ELSE POK([i \in 1..Len(rs) |-> rs[i].g])
-ExportAsG(x) ==           \* an exported JavaScript value as an abstract Go value (interface{} parameters)
-    x
+RECURSIVE FillStruct(_, _, _, _)
+FillStruct(st, keys, vals, i) ==
+    IF i > Len(keys) THEN POK(st)
+    ELSE LET f == StructFieldOf(keys[i])
+         IN  IF f = "none" THEN PErr("TypeError")
+             ELSE LET r == ConvertParam(vals[i], FieldTy(f))
+                  IN  IF r.thr # "" THEN r ELSE FillStruct(SetField(st, f, r.g), keys, vals, i + 1)
 ConvertParam(v, ty) ==
     CASE ty.k = "bool" -> POK(GBool(ToBooleanV(AsOps(v))))                  \* 9.2
       [] ty.k = "string" ->
-            IF v.t \in {"arr", "obj", "fn", "hole"} THEN PErr("unmodelled")
-            ELSE IF v.t = "cobj" THEN
-                 (LET r == ToStringV(v, <<>>) IN IF r.thr # "" THEN PErr("TypeError") ELSE POK(GStr(r.v.s)))
+            IF v.t = "cobj" THEN
+                 (LET r == ToStringV(v, <<>>) IN IF r.thr = "" THEN POK(GStr(r.v.s)) ELSE PErr("TypeError"))   \* the conversion failed: loud
+            ELSE IF v.t = "arr" THEN POK(GStr(JoinPrims(v.items, 1)))
+            ELSE IF v.t = "obj" THEN POK(GStr(S_objObject))
             ELSE POK(GStr(StringOfPrim(v)))
       [] ty.k \in NumKinds ->
-            IF v.t = "num" THEN NumToKind(v.n, ty.k)
-            ELSE IF v.t = "hole" THEN PErr("TypeError") ELSE PErr("TypeError")   \* no implicit ToNumber: fails loudly
-      [] ty.k = "iface" -> POK([k |-> "x", x |-> ExportX(v)])
+            IF v.t = "num" THEN NumToKind(v.n, ty.k) ELSE PErr("TypeError")
+      [] ty.k = "iface" -> POK(GX(ExportX(v)))
       [] ty.k = "slice" ->
             IF v.t = "arr" THEN
-                 LET its == [i \in 1..Len(v.items) |->
-                               IF v.items[i].t = "hole" /\ D("D16_slice_parameter_hole_becomes_zero")
-                               THEN [t |-> "zero"] ELSE v.items[i]]
-                     rs == [i \in 1..Len(its) |->
-                               IF its[i].t = "zero" THEN POK([k |-> "zero"])
-                               ELSE ConvertParam(IF its[i].t = "hole" THEN Undef ELSE its[i], ty.e)]
-                     bad == SelectSeq([i \in 1..Len(rs) |-> i], LAMBDA i : rs[i].thr # "")
+                 LET rs == [i \in 1..Len(v.items) |->
+                               IF v.items[i].t = "hole"
+                               THEN (IF D("D16_slice_parameter_hole_becomes_zero")
+                                     THEN POK(ZeroG(ty.e))          \* convertCallParameter: `continue` on a missing index
+                                     ELSE ConvertParam(Undef, ty.e))  \* 8.12.3: a missing index reads as undefined
+                               ELSE ConvertParam(v.items[i], ty.e)]
+                     bad == FirstBad(rs)
                  IN  IF bad # <<>> THEN PErr(rs[bad[1]].thr)
                      ELSE POK([k |-> "slice", items |-> [i \in 1..Len(rs) |-> rs[i].g]])
+            ELSE IF v.t = "obj" /\ D("D16_slice_parameter_arraylike_zero_filled")
+                    /\ \E i \in 1..Len(v.keys) : v.keys[i] = S_length /\ v.vals[i].t = "num"
+                 THEN \* any object with a numeric length: a slice of that many ZERO values (elements only copied for class Array)
+                      LET i == CHOOSE i \in 1..Len(v.keys) : v.keys[i] = S_length
+                          l == I64OfNum(v.vals[i].n)
+                      IN  IF NumCmp(l, I(0)) < 0 THEN PErr("value")          \* reflect.MakeSlice: negative len, thrown as a string
+                          ELSE POK([k |-> "slice", items |-> [j \in 1..l.v |-> ZeroG(ty.e)]])
             ELSE PErr("TypeError")
       [] ty.k = "map" ->
             IF v.t = "obj" THEN
                  LET rs == [i \in 1..Len(v.vals) |-> ConvertParam(v.vals[i], ty.e)]
-                     bad == SelectSeq([i \in 1..Len(rs) |-> i], LAMBDA i : rs[i].thr # "")
+                     bad == FirstBad(rs)
                  IN  IF bad # <<>> THEN PErr(rs[bad[1]].thr)
                      ELSE POK([k |-> "map", keys |-> v.keys, vals |-> [i \in 1..Len(rs) |-> rs[i].g]])
-            ELSE IF v.t \in {"arr", "fn", "cobj"} THEN PErr("unmodelled")
             ELSE PErr("TypeError")
-      [] OTHER -> PErr("unmodelled")
+      [] ty.k = "struct" ->
+            IF v.t = "obj" THEN FillStruct(ZeroStruct, v.keys, v.vals, 1) ELSE PErr("TypeError")
+      [] ty.k = "ptr" ->
+            IF v.t \in {"undef", "null"} THEN POK(GPtrNil)
+            ELSE LET r == ConvertParam(v, TK("struct"))
+                 IN  IF r.thr # "" THEN r ELSE POK([k |-> "ptr", to |-> r.g])
+
+(* ---- calling a Go function (runtime.go toValue, reflect.Func branch) ------ *)
+(* sig = [ins |-> <<ty...>>, variadic |-> BOOLEAN] (the last type is the     *)
+(* element type of the variadic tail).  Arity mismatch: RangeError.  A       *)
+(* variadic function called with exactly as many arguments as parameters     *)
+(* whose last argument converts to the slice type receives it as the tail    *)
+(* (documented in runtime.go).                                               *)
+ConvertArgs(args, sig) ==
+    LET n == Len(sig.ins)  m == Len(args) IN
+    IF ~sig.variadic THEN
+         (IF m # n THEN PErr("RangeError")
+          ELSE LET rs == [i \in 1..m |-> ConvertParam(args[i], sig.ins[i])]
+                   bad == FirstBad(rs)
+               IN  IF bad # <<>> THEN PErr(rs[bad[1]].thr) ELSE POK([i \in 1..m |-> rs[i].g]))
+    ELSE IF m < n - 1 THEN PErr("RangeError")
+    ELSE LET fixed == [i \in 1..(n - 1) |-> ConvertParam(args[i], sig.ins[i])]
+             bad1  == FirstBad(fixed)
+             whole == IF m = n THEN ConvertParam(args[n], TSl(sig.ins[n])) ELSE PErr("no")
+         IN  IF bad1 # <<>> THEN PErr(fixed[bad1[1]].thr)
+             ELSE IF m = n /\ whole.thr = "" THEN POK([i \in 1..(n - 1) |-> fixed[i].g] \o <<whole.g>>)
+             ELSE IF m = n /\ whole.thr = "RangeError" THEN PErr("RangeError")      \* a range failure inside the attempt is final
+
+             ELSE LET tail == [i \in 1..(m - n + 1) |-> ConvertParam(args[n - 1 + i], sig.ins[n])]
+                      bad2 == FirstBad(tail)
+                  IN  IF bad2 # <<>> THEN PErr(tail[bad2[1]].thr)
+                      ELSE POK([i \in 1..(n - 1) |-> fixed[i].g] \o <<[k |-> "slice", items |-> [i \in 1..Len(tail) |-> tail[i].g]]>>)
+
+(* return values: none -> undefined, one -> its counterpart, several -> an array *)
+ReturnJS(outs) == IF Len(outs) = 0 THEN Undef ELSE IF Len(outs) = 1 THEN ToJS(outs[1])
+                  ELSE JArr([i \in 1..Len(outs) |-> ToJS(outs[i])])
+
+(* a bridged struct handed back to a Go function (convertCallParameter: the  *)
+(* goStructObject branch): isPtr says whether the runtime holds *T or T;     *)
+(* `same` whether the callee receives the very pointer the runtime holds     *)
+BridgedToParam(isPtr, stc, ty) ==
+    CASE ty = "ptr" -> [thr |-> "", same |-> isPtr, g |-> [k |-> "ptr", to |-> stc]]
+      [] ty = "struct" ->
+            IF isPtr /\ D("D16_struct_parameter_from_bridged_pointer_zeroed")
+            THEN [thr |-> "", same |-> FALSE, g |-> ZeroStruct]      \* *T is not assignable to T; the wrapper has no own properties: every field stays zero
+            ELSE [thr |-> "", same |-> FALSE, g |-> stc]
+      [] ty = "iface" -> [thr |-> "", same |-> isPtr, g |-> IF isPtr THEN [k |-> "ptr", to |-> stc] ELSE stc]
+
+(* a JavaScript function passed for a parameter of type func(int) int and   *)
+(* called from Go with 3: the body is one of                                *)
+(*   [b |-> "ret", v]  returns v;  [b |-> "throw", cls]  throws new cls()    *)
+(* outcome as the calling script sees it: [thr, g]                          *)
+FuncParamCall(body) ==
+    IF body.b = "throw"
+    THEN (IF D("D16_func_parameter_exception_escapes_try") THEN PErr("uncaught:TypeError")   \* tryCatchEvaluate cannot wrap the *otto.Error the Go wrapper re-panics with
+          ELSE PErr(body.cls))
+    ELSE ConvertParam(body.v, TK("int"))
+
+-----------------------------------------------------------------------------
+(* C16: live containers.  The element conversion on writes must be the same *)
+(* checked conversion as for parameters.  otto's bridged slices, arrays and  *)
+(* maps use Value.toReflectValue instead (value.go), transcribed here as the *)
+(* deviation D16_element_write_unchecked_conversion; errors of that routine  *)
+(* are raised with panic(err) on a plain Go error, which a script cannot     *)
+(* catch (D16_element_write_error_not_catchable).                            *)
+
+(* ToNumber of the JavaScript values used as write operands (9.3) *)
+NumOfJ(v) == IF v.t = "obj" THEN NaN                                  \* "[object Object]"
+             ELSE IF v.t = "arr" THEN StrToNum(JoinPrims(v.items, 1))
+             ELSE ToNumberPrim(v)
+StrOfJ(v) == IF v.t = "obj" THEN S_objObject ELSE IF v.t = "arr" THEN JoinPrims(v.items, 1) ELSE ToStringPrim(v)
+
+(* Value.number().int64 (value_number.go): exact for Go-held integers, else  *)
+(* through float64: NaN -> 0, saturating, truncating                         *)
+NumberI64(v) == IF v.t = "num" /\ HeldAsInt(v.n) THEN v.n ELSE I64OfNum(NumOfJ(v))
+(* toIntegerFloat *)
+IntegerFloat(v) == LET x == NumOfJ(v) IN IF IsNaN(x) THEN I(0) ELSE IF IsInf(x) THEN x ELSE Trunc(x)
+
+ElemErr == PErr("RangeError")
+
+ToReflectValue(v, k) ==
+    LET posFrac == v.t = "num" /\ ~HeldAsInt(v.n) /\ IsFinite(v.n) /\ ~IsNeg(v.n) /\ ~(IsInteger(v.n) \/ IsZero(v.n))
+    IN
+    IF k \notin {"float32", "float64", "iface"} /\ posFrac THEN ElemErr        \* math.Modf frac > 0: positive fractions only
+    ELSE CASE k = "bool" -> POK(GBool(ToBooleanV(AsOps(v))))
+      [] k \in {"int8", "int16", "int32", "uint8", "uint16", "uint32"} ->
+            LET z == NumberI64(v) IN IF InRangeZ(z, k) THEN POK(GInt(k, ZOfNum(z))) ELSE ElemErr
+      [] k \in {"int", "int64"} ->
+            LET t == IntegerFloat(v)
+            IN  IF IsInf(t) \/ NumCmp(t, MinI64) < 0 \/ NumCmp(t, P2Z(63)) > 0 THEN ElemErr
+                ELSE IF NumCmp(t, P2Z(63)) = 0 THEN POK(GInt(k, MinI64))         \* int64(2^63) wraps (amd64)
+                ELSE POK(GInt(k, ZOfNum(t)))
+      [] k \in {"uint", "uint64"} ->
+            LET t == IntegerFloat(v)
+            IN  IF IsInf(t) \/ NumCmp(t, I(0)) < 0 \/ NumCmp(t, P2Z(64)) > 0 THEN ElemErr
+                ELSE IF NumCmp(t, P2Z(64)) = 0 THEN POK(GInt(k, P2Z(63)))        \* uint64(2^64) (amd64)
+                ELSE POK(GInt(k, ZOfNum(t)))
+      [] k = "float32" ->
+            LET x == NumOfJ(v)  a == IF IsNeg(x) THEN NumNeg(x) ELSE x
+            IN  IF ~IsNaN(x) /\ ~IsZero(x) /\ (NumCmp(a, Canon(FALSE, <<1>>, -149)) < 0 \/ NumCmp(a, MaxF32) > 0) THEN ElemErr
+                ELSE POK(GFlt(k, RoundF32(x)))
+      [] k = "float64" -> POK(GFlt(k, NumOfJ(v)))
+      [] k = "string" -> POK(GStr(StrOfJ(v)))
+      [] k = "iface" ->
+            IF v.t \in {"undef", "null"} THEN POK([k |-> "invalid"])               \* reflect.ValueOf(nil): the zero reflect.Value
+            ELSE POK(GX(ExportX(v)))
+
+(* storing the zero reflect.Value: reflect.Value.Set / reflect.Append panic with a *reflect.ValueError *)
+InvalidErr == IF D("D16_element_write_error_not_catchable") THEN "uncaught:TypeError" ELSE "TypeError"
+IsInvalid(r) == r.thr = "" /\ r.g.k = "invalid"
+ElemConv(v, k) ==
+    LET r == IF D("D16_element_write_unchecked_conversion") THEN ToReflectValue(v, k) ELSE ConvertParam(v, TK(k))
+    IN  IF r.thr \in {"TypeError", "RangeError"} /\ D("D16_element_write_error_not_catchable")
+        THEN PErr("uncaught:TypeError")                  \* panic(err) on a plain Go error: tryCatchEvaluate cannot wrap it, Run returns a TypeError past every catch
+        ELSE r
+
+(* the JavaScript counterpart of what arrived (type-directed G forms) *)
+RECURSIVE ToJSX(_)
+ToJSX(x) == CASE x.x = "nil" -> Undef
+              [] x.x = "bool" -> BoolV(x.b)
+              [] x.x = "num" -> NumV(x.n)
+              [] x.x = "str" -> StrV(x.s)
+              [] x.x = "arr" -> JArr([i \in 1..Len(x.items) |-> ToJSX(x.items[i])])
+              [] x.x = "obj" -> JObj(x.keys, [i \in 1..Len(x.vals) |-> ToJSX(x.vals[i])])
+ElemJS(g) == IF g.k = "x" THEN ToJSX(g.x) ELSE ToJS(g)
+ZeroElem(k) == IF k = "iface" THEN GX(XNil) ELSE ZeroOf(k)
+
+(* ---- slices ---------------------------------------------------------------- *)
+(* State of a bridged slice: [k (element kind), mode, go, js] where go is   *)
+(* the Go view and js the view through the JavaScript wrapper; mode "field"  *)
+(* is a slice-typed field of a struct reached through a pointer (addressable,*)
+(* b.S), mode "value" a slice passed by value (s).  The property requires    *)
+(* js = go after every step for "field"; a by-value slice shares its         *)
+(* elements, but its header (length) is a Go value the script cannot reach.  *)
+(* Operations: [op |-> "jsread", i], [op |-> "jswrite", i, v],                *)
+(* [op |-> "jsdelete", i], [op |-> "jslen"], [op |-> "jspush", v],            *)
+(* [op |-> "jspop"], [op |-> "jssetlen", n], [op |-> "gowrite", i, g],        *)
+(* [op |-> "goappend", g].  Result [st, thr, ret].                           *)
+SR(st, thr, ret) == [st |-> st, thr |-> thr, ret |-> ret]
+Upd(seq, i, x) == [seq EXCEPT ![i] = x]
+SliceStep(st, op) ==
+    LET n == Len(st.js)  field == st.mode = "field"
+        lost == field /\ D("D16_slice_field_growth_not_written_back")       \* goSliceObject.setValue/setLength: reflect.Append / MakeSlice result kept in the wrapper only
+        both(items) == [st EXCEPT !.go = items, !.js = items]
+        grow(items) == [st EXCEPT !.go = items, !.js = items, !.cap = Len(items)]   \* the harness keeps capacity = length on growth
+    IN
+    CASE op.op = "jsread" -> SR(st, "", IF op.i < n THEN ElemJS(st.js[op.i + 1]) ELSE Undef)
+      [] op.op = "jslen" -> SR(st, "", IntV(n))
+      [] op.op = "jswrite" ->
+            LET r == ElemConv(op.v, st.k)                                           \* the value is converted first
+            IN  IF r.thr # "" THEN SR(st, r.thr, Undef)
+                ELSE IF op.i > n THEN SR(st, "", op.v)                              \* no such element and not an append: rejected, 8.7.2 non-strict
+                ELSE IF IsInvalid(r) THEN SR(st, InvalidErr, Undef)
+                ELSE IF op.i < n THEN SR(both(Upd(st.js, op.i + 1, r.g)), "", op.v)
+                ELSE IF lost THEN SR(st, "", op.v)
+                ELSE IF field THEN SR(grow(Append(st.js, r.g)), "", op.v)
+                ELSE SR([st EXCEPT !.js = Append(st.js, r.g), !.done = TRUE], "", op.v)
+      [] op.op = "jsdelete" ->     \* a Go element cannot be removed: it is reset to the zero value (type_go_slice.go goSliceDelete)
+            IF op.i < n THEN SR(both(Upd(st.js, op.i + 1, ZeroElem(st.k))), "", BoolV(TRUE))
+            ELSE SR(st, "", BoolV(~D("D16_slice_delete_missing_index_returns_false")))          \* 8.12.7 step 2: no such property -> true
+      [] op.op = "jspush" ->       \* 15.4.4.7
+            LET r == ElemConv(op.v, st.k)
+            IN  IF r.thr # "" THEN SR(st, r.thr, Undef)
+                ELSE IF IsInvalid(r) THEN SR(st, InvalidErr, Undef)
+                ELSE IF lost THEN SR(st, "", IntV(n + 1))
+                ELSE IF field THEN SR(grow(Append(st.js, r.g)), "", IntV(n + 1))
+                ELSE SR([st EXCEPT !.js = Append(st.js, r.g), !.done = TRUE], "", IntV(n + 1))
+      [] op.op = "jspop" ->        \* 15.4.4.6
+            IF n = 0 THEN SR(st, "", Undef)
+            ELSE IF ~field /\ D("D16_slice_value_shrink_panics")
+                 THEN SR([both(Upd(st.js, n, ZeroElem(st.k))) EXCEPT !.done = TRUE], "value", Undef)
+                                                                      \* reflect.Value.SetLen on an unaddressable slice, thrown as a string; the element was already zeroed
+            ELSE IF field THEN SR(both(SubSeq(st.js, 1, n - 1)), "", ElemJS(st.js[n]))
+            ELSE SR([st EXCEPT !.js = SubSeq(st.js, 1, n - 1), !.done = TRUE], "", ElemJS(st.js[n]))
+      [] op.op = "jssetlen" ->
+            IF op.n = n THEN SR(st, "", IntV(op.n))
+            ELSE IF op.n < n THEN
+                 (IF ~field /\ D("D16_slice_value_shrink_panics") THEN SR([st EXCEPT !.done = TRUE], "value", Undef)
+                  ELSE IF field THEN SR(both(SubSeq(st.js, 1, op.n)), "", IntV(op.n))
+                  ELSE SR([st EXCEPT !.js = SubSeq(st.js, 1, op.n), !.done = TRUE], "", IntV(op.n)))
+            ELSE LET grown == st.js \o [j \in 1..(op.n - n) |-> ZeroElem(st.k)]
+                 IN  IF lost THEN SR(st, "", IntV(op.n))
+                     ELSE IF field THEN SR(grow(grown), "", IntV(op.n))
+                     ELSE SR([st EXCEPT !.js = grown, !.done = TRUE], "", IntV(op.n))
+      [] op.op = "gowrite" -> SR(both(Upd(st.go, op.i + 1, op.g)), "", Undef)
+      [] op.op = "goappend" -> SR(grow(Append(st.go, op.g)), "", Undef)
+
+(* ---- maps (map[string]K) --------------------------------------------------- *)
+(* state [k, keys, vals] (keys sorted).  Operations: jsread/jswrite/jsdelete  *)
+(* /jshas/jskeys with a key, gowrite, godelete.                              *)
+KeyIdx(keys, key) == SelectSeq([i \in 1..Len(keys) |-> i], LAMBDA i : keys[i] = key)
+RECURSIVE InsPos(_, _, _)
+InsPos(keys, key, i) == IF i > Len(keys) \/ StrCmp(key, keys[i]) < 0 THEN i ELSE InsPos(keys, key, i + 1)
+InsertAt(seq, p, x) == SubSeq(seq, 1, p - 1) \o <<x>> \o SubSeq(seq, p, Len(seq))
+RemoveAt(seq, p) == SubSeq(seq, 1, p - 1) \o SubSeq(seq, p + 1, Len(seq))
+MapPut(st, key, g) ==
+    LET ix == KeyIdx(st.keys, key)
+    IN  IF ix # <<>> THEN [st EXCEPT !.vals = Upd(st.vals, ix[1], g)]
+        ELSE LET p == InsPos(st.keys, key, 1)
+             IN  [st EXCEPT !.keys = InsertAt(st.keys, p, key), !.vals = InsertAt(st.vals, p, g)]
+MapDel(st, key) ==
+    LET ix == KeyIdx(st.keys, key)
+    IN  IF ix = <<>> THEN st ELSE [st EXCEPT !.keys = RemoveAt(st.keys, ix[1]), !.vals = RemoveAt(st.vals, ix[1])]
+MapStep(st, op) ==
+    LET ix == IF op.op \in {"jskeys"} THEN <<>> ELSE KeyIdx(st.keys, op.key) IN
+    CASE op.op = "jsread" -> SR(st, "", IF ix # <<>> THEN ElemJS(st.vals[ix[1]]) ELSE Undef)
+      [] op.op = "jshas" -> SR(st, "", BoolV(ix # <<>>))
+      [] op.op = "jskeys" -> SR(st, "", JArr([i \in 1..Len(st.keys) |-> StrV(st.keys[i])]))
+      [] op.op = "jswrite" ->
+            LET r == ElemConv(op.v, st.k)
+            IN  IF IsInvalid(r)
+                THEN SR(MapDel(st, op.key), "", op.v)              \* toReflectValue gives the zero reflect.Value: SetMapIndex deletes the key
+                ELSE IF r.thr # "" THEN SR(st, r.thr, Undef) ELSE SR(MapPut(st, op.key, r.g), "", op.v)
+      [] op.op = "jsdelete" -> SR(MapDel(st, op.key), "", BoolV(TRUE))          \* 8.12.7
+      [] op.op = "gowrite" -> SR(MapPut(st, op.key, op.g), "", Undef)
+      [] op.op = "godelete" -> SR(MapDel(st, op.key), "", Undef)
+
+(* map[int]string: a property name that is no integer cannot be a key       *)
+IsIntKey(key) == Len(key) >= 1 /\ Len(key) <= 9 /\ AllDigits(key, 1) /\ (key[1] # 48 \/ Len(key) = 1)
+MapIntStep(st, op) ==
+    IF IsIntKey(op.key) THEN MapStep(st, op)
+    ELSE CASE op.op = "jsread" -> SR(st, "", Undef)
+           [] op.op = "jshas" -> SR(st, "", BoolV(FALSE))
+           [] op.op = "jswrite" ->
+                 IF D("D16_map_key_conversion_error_not_catchable") THEN SR(st, "uncaught:TypeError", Undef)   \* type_go_map.go toKey: panic(err) with a *strconv.NumError
+                 ELSE SR(st, "TypeError", Undef)
+           [] op.op = "jsdelete" ->
+                 IF D("D16_map_key_conversion_error_not_catchable") THEN SR(st, "uncaught:TypeError", Undef)
+                 ELSE SR(st, "", BoolV(TRUE))                                                                 \* 8.12.7: no such property
+
+(* ---- structs ----------------------------------------------------------------- *)
+(* state [ptr, go |-> struct (type-directed form), ex |-> expando properties  *)
+(* (keys, vals)] ; names are code-unit strings.  Reading: exported fields by  *)
+(* Go name or json tag, methods as functions, unexported fields hidden.       *)
+StructRead(st, name) ==
+    LET ix == KeyIdx(st.ex.keys, name) IN
+    CASE name = S_A -> NumV(ToDouble(st.go.A))
+      [] name \in {S_B, S_bee} -> StrV(st.go.B)
+      [] name = S_F -> NumV(st.go.F)
+      [] name = S_Any -> ElemJS(st.go.Any)
+      [] name = S_Hid -> NumV(ToDouble(st.go.Hid))
+      [] name = S_GetA -> JFn
+      [] name = S_SetA /\ st.ptr -> JFn
+      [] OTHER -> IF ix # <<>> THEN st.ex.vals[ix[1]] ELSE Undef
+StructWritable(name) == name \in {S_A, S_B, S_bee, S_F, S_Any, S_Hid}
+StructStep(st, op) ==
+    CASE op.op = "jsread" -> SR(st, "", StructRead(st, op.key))
+      [] op.op = "jswrite" ->
+            IF op.key = S_Hid /\ D("D16_struct_dash_tag_field_write_lost")
+            THEN \* fieldIndexByName skips json:"-": the assignment makes an ordinary property of the wrapper that the field shadows (and a second "Hid" key)
+                 SR([st EXCEPT !.ex = IF KeyIdx(st.ex.keys, S_Hid) # <<>> THEN st.ex
+                                      ELSE [keys |-> Append(st.ex.keys, S_Hid), vals |-> Append(st.ex.vals, op.v)]], "", op.v)
+            ELSE IF StructWritable(op.key) THEN
+                 LET f == IF op.key = S_Hid THEN "Hid" ELSE StructFieldOf(op.key)
+                     r == ConvertParam(op.v, IF f = "Hid" THEN TK("int") ELSE FieldTy(f))
+                 IN  IF r.thr # "" THEN SR(st, r.thr, Undef)
+                     ELSE IF ~st.ptr THEN
+                          (IF D("D16_struct_value_field_write_panics") THEN SR(st, "value", Undef)   \* reflect.Value.Set on an unaddressable value, thrown as a string
+                           ELSE SR(st, "TypeError", Undef))                                          \* a struct passed by value cannot be changed: fail loudly
+                     ELSE SR([st EXCEPT !.go = IF f = "Hid" THEN [st.go EXCEPT !.Hid = r.g.z] ELSE SetField(st.go, f, r.g)], "", op.v)
+            ELSE IF op.key \in {S_GetA, S_SetA} THEN SR(st, "skip", Undef)
+            ELSE \* no such field: an ordinary (expando) property of the JavaScript object
+                 LET ix == KeyIdx(st.ex.keys, op.key)
+                 IN  SR([st EXCEPT !.ex = IF ix # <<>> THEN [keys |-> st.ex.keys, vals |-> Upd(st.ex.vals, ix[1], op.v)]
+                                          ELSE [keys |-> Append(st.ex.keys, op.key), vals |-> Append(st.ex.vals, op.v)]], "", op.v)
+      [] op.op = "callget" -> SR(st, "", NumV(ToDouble(st.go.A)))                 \* t.GetA()
+      [] op.op = "callset" ->                                                      \* t.SetA(v): the method's parameter conversion
+            LET r == ConvertArgs(op.args, [ins |-> <<TK("int")>>, variadic |-> FALSE])
+            IN  IF ~st.ptr THEN SR(st, "TypeError", Undef)                          \* tv.SetA is undefined: calling it is a TypeError (11.2.3)
+                ELSE IF r.thr # "" THEN SR(st, r.thr, Undef)
+                ELSE SR([st EXCEPT !.go = [st.go EXCEPT !.A = r.g[1].z]], "", Undef)
+      [] op.op = "gowrite" -> SR([st EXCEPT !.go = IF op.f = "c" THEN [st.go EXCEPT !.c = op.g.z]
+                                                  ELSE IF op.f = "Hid" THEN [st.go EXCEPT !.Hid = op.g.z] ELSE SetField(st.go, op.f, op.g)], "", Undef)
+
+(* what a script sees of the whole struct: keys sorted, expandos included    *)
+StructJS(st) ==
+    LET base == IF st.ptr
+                THEN [keys |-> <<S_A, S_Any, S_B, S_F, S_GetA, S_Hid, S_SetA>>,
+                      vals |-> <<NumV(ToDouble(st.go.A)), ElemJS(st.go.Any), StrV(st.go.B), NumV(st.go.F), JFn, NumV(ToDouble(st.go.Hid)), JFn>>]
+                ELSE [keys |-> <<S_A, S_Any, S_B, S_F, S_GetA, S_Hid>>,
+                      vals |-> <<NumV(ToDouble(st.go.A)), ElemJS(st.go.Any), StrV(st.go.B), NumV(st.go.F), JFn, NumV(ToDouble(st.go.Hid))>>]
+        RECURSIVE Ins(_, _)
+        Ins(acc, i) == IF i > Len(st.ex.keys) THEN acc
+                       ELSE LET p == InsPos(acc.keys, st.ex.keys[i], 1)
+                                val == IF st.ex.keys[i] = S_Hid THEN NumV(ToDouble(st.go.Hid)) ELSE st.ex.vals[i]
+                            IN  Ins([keys |-> InsertAt(acc.keys, p, st.ex.keys[i]), vals |-> InsertAt(acc.vals, p, val)], i + 1)
+        all == Ins(base, 1)
+    IN  JObj(all.keys, all.vals)
+
+(* the observable state after a step *)
+SliceObs(st) == [js |-> JArr([i \in 1..Len(st.js) |-> ElemJS(st.js[i])]), go |-> st.go]
+MapObs(st) == [js |-> JObj(st.keys, [i \in 1..Len(st.vals) |-> ElemJS(st.vals[i])]), go |-> [keys |-> st.keys, vals |-> st.vals]]
+StructObs(st) == [js |-> StructJS(st), go |-> st.go]
 =============================================================================
